@@ -1648,36 +1648,21 @@ def unordered_accounting(rs, label, resp, ref):
     return out
 
 
-KNOWN_RACE = "parallel-observer-race"
+RACE_FIX = "c9df167"
 
 
 def run_mode(rs, fails, cls_name, inc, par, graph, reference, ref_excs, lines=None, impl=None, kinds=None):
-    """run_mode_once; the pooled mode (incremental on the evaluator's thread pool) is the only one that evaluates on
-    several threads, and there Evaluator.observer iterates broker.instances while other threads insert into it: the
-    RuntimeError is swallowed by Broker.fire_observers and the outcome of the component being observed is lost (known
-    finding parallel-observer-race, timing dependent).  A pooled run that fails is therefore repeated: a failure that
-    persists over four runs is reported as it is; one that does not is an instance of the known finding."""
-    if not (inc and par):
-        return run_mode_once(rs, fails, cls_name, inc, par, graph, reference, ref_excs, lines, impl, kinds)
-    first = None
-    for attempt in range(4):
-        f2 = []
-        out = run_mode_once(rs, f2, cls_name, inc, par, graph, reference, ref_excs, lines, impl, kinds)
-        if not f2:
-            if first:
-                rs.stats["mode:pooled run failed once and passed when repeated"] = \
-                    rs.stats.get("mode:pooled run failed once and passed when repeated", 0) + 1
-                for desc, fd in first:
-                    fails.append((desc + " [in run 1 of %d pooled runs only]" % (attempt + 1), fd or KNOWN_RACE))
-            return out
-        first = first or f2
-    fails.extend(first)
-    return out
+    """run_mode_once.  The pooled mode (incremental on the evaluator's thread pool) evaluates on several threads; before
+    the fix c9df167 Evaluator.observer iterated broker.instances while other threads inserted into it, the RuntimeError
+    was swallowed by Broker.fire_observers and the outcome of the observed component was lost (timing dependent).  The
+    observer now walks a snapshot: a pooled run whose accounting differs from the serial run is a violation, in any run."""
+    return run_mode_once(rs, fails, cls_name, inc, par, graph, reference, ref_excs, lines, impl, kinds)
 
 
 def observe_race(rs, tries):
-    """witness of parallel-observer-race: pooled evaluations of the default group graph until Broker.fire_observers
-    logs the RuntimeError raised inside Evaluator.observer (timing dependent: may not show in `tries` runs)"""
+    """regression of c9df167 (parallel-observer-race): `tries` pooled evaluations of the default group graph; none may
+    make Broker.fire_observers log a RuntimeError 'changed size during iteration' raised inside Evaluator.observer
+    (before the fix about 3% of such runs did).  Returns (runs made, what was logged)"""
     seen = []
 
     class Catch(logging.Handler):
@@ -2407,6 +2392,10 @@ def default_graph_child():
             n, seen = observe_race(rs, case["race_tries"])
             stats["race:pooled runs of the default graph"] = n
             stats["race:observed"] = seen
+            if seen:
+                fails.append(("regression of %s: in pooled run %d of the default graph (SingleEvaluator(incremental=True)"
+                              ".process(None, parallel=True)) an observer raised RuntimeError %r, which fire_observers swallows: "
+                              "the outcome of the component being observed is not accounted" % (RACE_FIX, n, seen[0]), None))
         stats["default-graph:components"] = len(dr.COMPONENTS[dr.GROUPS.single])
         stats["default-graph:subgraphs"] = len(list(dr.get_subgraphs(dr.COMPONENTS[dr.GROUPS.single])))
     except Exception as ex:
@@ -2793,7 +2782,7 @@ def run(chk):
                 r["rtype"] = "rule" if j < k else derived
         c["load_order"] = order_kind
         if i == 0:
-            c["race_tries"] = 60 if quick else 400
+            c["race_tries"] = 150 if quick else 1000
         child_cases.append(c)
     children = []
     for i, c in enumerate(child_cases):
@@ -3047,7 +3036,7 @@ def run(chk):
             if k.startswith("race:"):
                 if k == "race:observed" and v:
                     race_seen.append(v[0])
-                chk.extra.setdefault("parallel-observer-race", {})[k] = v
+                chk.extra.setdefault("pooled-observer-regression c9df167", {})[k] = v
             elif k.startswith("default-graph:"):
                 chk.extra[k] = v
             elif k.startswith("load-order:"):
@@ -3060,12 +3049,6 @@ def run(chk):
     while cli_children:
         c, runs, proc = cli_children.pop(0)
         res = collect_default_graph(proc)
-        if any("--parallel" in str(d) for d, _ in res["fails"]):
-            # --parallel evaluates on a thread pool (known finding parallel-observer-race is timing dependent): a
-            # failure of such a run that does not show again in a second child is an instance of it
-            again = set(str(d) for d, _ in collect_default_graph(spawn_cli(c, runs))["fails"])
-            res["fails"] = [(d, fd if (str(d) in again or "--parallel" not in str(d)) else (fd or KNOWN_RACE))
-                            for d, fd in res["fails"]]
         if cli_pending:
             c2, r2 = cli_pending.pop(0)
             cli_children.append((c2, r2, spawn_cli(c2, r2)))
@@ -3074,10 +3057,10 @@ def run(chk):
         for k, v in res["stats"].items():
             chk.count(k, v)
         chk.case(("cli", J(c), J(runs)), True)
-    chk.witnesses.append({"id": KNOWN_RACE, "reproduces": bool(race_seen), "observed": race_seen[:1],
-                          "note": "timing dependent: pooled evaluations of the default graph in one child interpreter"})
-    if race_seen:
-        chk.finding_reproduced(KNOWN_RACE)
+    chk.witnesses.append({"fixed": RACE_FIX + " parallel-observer-race", "corpus": "corpus/C12/parallel-observer-race.json",
+                          "passes": not race_seen, "observed": race_seen[:1],
+                          "note": "pooled evaluations of the default graph in one child interpreter; a swallowed RuntimeError "
+                                  "inside the observer is a failure"})
     hs = [x for x in segments if x[0].get("kind") == "history"]
     if hs:
         chk.sample({"history": {k: v for k, v in hs[0][0].items() if k != "case"}, "rules": len(hs[0][0]["case"]["rules"]),
